@@ -137,6 +137,11 @@ def run(ctx):
             if ek[6:] in base_atoms or not src.startswith('user-body:'):
                 continue
         rec = dx.n(s, 'enter:record_output')
+        # entering the output recorder is not enough: unless the recording was discarded meanwhile, the entry must be stored
+        a_ = dx.field(s, roles.active)
+        dead = a_ is not None and a_.kind == 'none'
+        if rec == 1 and not dead and dx.n(s, 'store:active-recording') < 1:
+            rec = 0
         if rec != 1:
             if ek != 'return' and ek[6:] in fw_atoms:
                 bad_fw = bad_fw or (n, s)
@@ -237,6 +242,29 @@ def run(ctx):
     ce.evaluations += 1
     if not ok:
         res.add(Finding('C18', 'C18.e', 'R-CONTAIN', pm.file, pm.qualname, pm.node.lineno, 'extractor merge', why))
+    # the user's extractor runs for every saved recording, whatever the outcome: the only guard is "an extractor was given"
+    from . import common
+    ext_param = None
+    for p in pm.params:
+        if any(isinstance(x, ast.Call) and isinstance(x.func, ast.Name) and x.func.id == p for x in ast.walk(pm.node)):
+            ext_param = p
+    if ext_param is None:
+        raise AnalysisError('anchor-lost role=extractor parameter of the metadata step')
+    sites = common.guards_of(pm.node, lambda x: isinstance(x, ast.Call) and isinstance(x.func, ast.Name) and x.func.id == ext_param)
+    extra_guards = []
+    for st_, conds in sites:
+        for t, pol in conds:
+            for lit, lp in common.split_literals(t, pol):
+                names = {x.id for x in ast.walk(lit) if isinstance(x, ast.Name)}
+                if names and names <= {ext_param}:
+                    continue
+                extra_guards.append((st_, lit, lp))
+    ce.instance('extractor call guarded only by "an extractor was given" (%d call site(s))' % len(sites), pm.qualname, bool(sites) and not extra_guards)
+    ce.evaluations += len(sites)
+    for st_, lit, lp in extra_guards[:1]:
+        res.add(Finding('C18', 'C18.e', 'R-CONTAIN', pm.file, pm.qualname, st_.lineno, norm(lit),
+                        'the user\'s metadata extractor is only called when `%s%s` holds: recordings of the other runs are saved without the '
+                        'user\'s metadata (and cannot be found by it)' % ('' if lp else 'not ', norm(lit))))
     # called from the finally of the scope (after the body)
     in_finally = False
     for t in [n for n in walk_own(st_fn) if isinstance(n, ast.Try)]:
